@@ -30,12 +30,14 @@ func c16Race(a lib.Args, res *lib.Result) error {
 		name, window string
 		strace       []string
 		upload       string // putObject | completeUpload | createUpload
+		versioned    bool   // bucket with versioning Enabled; the upload is TWO successive PUTs of the key (the second archives the first)
 	}
 	vs := []variant{
-		{"delete-window:putObject", "D", []string{"-f", "-qq", "-o", "/dev/null", "-e", "trace=getdents64", "-e", "inject=getdents64:delay_exit=250000"}, "putObject"},
-		{"upload-window:putObject", "U", []string{"-f", "-qq", "-o", "/dev/null", "-e", "trace=newfstatat,openat,mkdirat,linkat,renameat2,unlinkat", "-e", "inject=newfstatat,openat,mkdirat,linkat,renameat2,unlinkat:delay_enter=120000"}, "putObject"},
-		{"delete-window:completeUpload", "D", []string{"-f", "-qq", "-o", "/dev/null", "-e", "trace=getdents64", "-e", "inject=getdents64:delay_exit=250000"}, "completeUpload"},
-		{"upload-window:completeUpload", "U", []string{"-f", "-qq", "-o", "/dev/null", "-e", "trace=newfstatat,openat,mkdirat,linkat,renameat2,unlinkat", "-e", "inject=newfstatat,openat,mkdirat,linkat,renameat2,unlinkat:delay_enter=120000"}, "completeUpload"},
+		{"delete-window:putObject", "D", []string{"-f", "-qq", "-o", "/dev/null", "-e", "trace=getdents64", "-e", "inject=getdents64:delay_exit=250000"}, "putObject", false},
+		{"upload-window:putObject", "U", []string{"-f", "-qq", "-o", "/dev/null", "-e", "trace=newfstatat,openat,mkdirat,linkat,renameat2,unlinkat", "-e", "inject=newfstatat,openat,mkdirat,linkat,renameat2,unlinkat:delay_enter=120000"}, "putObject", false},
+		{"delete-window:completeUpload", "D", []string{"-f", "-qq", "-o", "/dev/null", "-e", "trace=getdents64", "-e", "inject=getdents64:delay_exit=250000"}, "completeUpload", false},
+		{"upload-window:completeUpload", "U", []string{"-f", "-qq", "-o", "/dev/null", "-e", "trace=newfstatat,openat,mkdirat,linkat,renameat2,unlinkat", "-e", "inject=newfstatat,openat,mkdirat,linkat,renameat2,unlinkat:delay_enter=120000"}, "completeUpload", false},
+		{"delete-window:putObject-twice@versioned", "D", []string{"-f", "-qq", "-o", "/dev/null", "-e", "trace=getdents64", "-e", "inject=getdents64:delay_exit=250000"}, "putObject", true},
 	}
 	// the outcome pairs the model (Model.BucketRace, the code as it is now) reaches over all schedules
 	mo, err := a.Driver.Ask([]string{"race outcomes"})
@@ -51,7 +53,7 @@ func c16Race(a lib.Args, res *lib.Result) error {
 		offsets = []int{0, 50, 100, 200, 300, 400, 500, 650, 800, 1000, 1300}
 	}
 	for vi, v := range vs {
-		cfg, err := mustStorage(a, fmt.Sprintf("c16race-%d", vi), false, false, nil)
+		cfg, err := mustStorage(a, fmt.Sprintf("c16race-%d", vi), v.versioned, false, nil)
 		if err != nil {
 			return err
 		}
@@ -83,6 +85,11 @@ func c16Race(a lib.Args, res *lib.Result) error {
 				slow.Kill()
 				return fmt.Errorf("create bucket %s: %d %s %v", b, r.Status, r.Body, r.Err)
 			}
+			if v.versioned {
+				do(plain, gw.Req{Method: "PUT", Path: "/" + b, Query: "versioning", Body: []byte(`<VersioningConfiguration><Status>Enabled</Status></VersioningConfiguration>`)})
+			}
+			var firstPut gw.Resp
+			firstBody := []byte(fmt.Sprintf("first-acknowledged-content-%d-%d", vi, ri))
 			upReq := gw.Req{Method: "PUT", Path: "/" + b + "/obj", Body: body}
 			if v.upload == "completeUpload" {
 				cu := do(plain, gw.Req{Method: "POST", Path: "/" + b + "/obj", Query: "uploads"})
@@ -113,6 +120,9 @@ func c16Race(a lib.Args, res *lib.Result) error {
 			go func() {
 				defer wg.Done()
 				time.Sleep(time.Duration(off) * time.Millisecond)
+				if v.versioned {
+					firstPut = do(secondGw, gw.Req{Method: "PUT", Path: "/" + b + "/obj", Body: firstBody})
+				}
 				r := do(secondGw, second)
 				if v.window == "U" {
 					delRsp = r
@@ -148,10 +158,23 @@ func c16Race(a lib.Args, res *lib.Result) error {
 			case upOK && (get.Status != 200 || string(get.Body) != string(body)):
 				res.Fail(lib.Failure{Kind: "property", Signature: "race:" + v.name + ":acknowledged-upload-not-readable",
 					What: "an acknowledged upload cannot be read back after the race: " + outcome, Input: in, Impl: outcome})
+			case v.versioned && firstPut.Status == 200 && !delOK:
+				// the version the second PUT archived was acknowledged too and nothing deleted it
+				vid := firstPut.Headers.Get("x-amz-version-id")
+				if gv := do(plain, gw.Req{Method: "GET", Path: "/" + b + "/obj", Query: "versionId=" + vid}); gv.Status != 200 || string(gv.Body) != string(firstBody) {
+					res.Fail(lib.Failure{Kind: "property", Signature: "race:" + v.name + ":acknowledged-version-not-readable",
+						What: fmt.Sprintf("DeleteBucket failed (%d %s), yet the version of an acknowledged upload that was archived during the race cannot be read back: GET ?versionId=%s -> %d %s; %s", delRsp.Status, delRsp.ErrCode(), vid, gv.Status, gv.ErrCode(), outcome), Input: in, Impl: outcome})
+				}
 			case !upOK && !delOK && upRsp.Status/100 == 5:
 				// both refused: nothing is lost; a 5xx for the upload is tolerated only as "the bucket went away under it"
 			}
 			// clean up for the next round
+			if v.versioned {
+				lv := do(plain, gw.Req{Method: "GET", Path: "/" + b, Query: "versions"})
+				for _, seg := range strings.Split(string(lv.Body), "<VersionId>")[1:] {
+					do(plain, gw.Req{Method: "DELETE", Path: "/" + b + "/obj", Query: "versionId=" + strings.SplitN(seg, "<", 2)[0]})
+				}
+			}
 			do(plain, gw.Req{Method: "DELETE", Path: "/" + b + "/obj"})
 			do(plain, gw.Req{Method: "DELETE", Path: "/" + b})
 		}
